@@ -16,7 +16,7 @@ about which only `GOK g` is assumed.
 * `parseValExpG g src`: `Parser.ParseValExp` = the raw reader, then `canon g`.
 * `GOK g`: what is trusted about strconv (both clauses are true of
   `ParseFloat`/`FormatFloat`: 'g' with shortest digits prints `d.ddde±XX` — a
-  NUM_FLOAT token — for exponents < -4 or ≥ 21, else `ddd.ddd` — a NUM_FLOAT
+  NUM_FLOAT token — for decimal exponents < -4 or ≥ 6, else `ddd.ddd` — a NUM_FLOAT
   token — or `ddd` — a canonical integer numeral, or `-0`; and the shortest
   digits read back as the same value, which prints the same).
 * `strsValid`, `noNegZero`: the two recorded exceptions as Bool predicates
